@@ -9,7 +9,7 @@
    consumed (POSTCONDITION AllConsumed); each event's verdict (ok / skip / a
    diagnosis) goes to the verdict file, so that one rejected event never hides
    the rest of the trace. *)
-EXTENDS SemOverflow, AsCodedOverflow, SemScaled, SemRounding, AsCodedRounding, SemElastic, SemSqrt, SemFraction, SemWide, SemNative, SemParse, SemMath, AsCodedToChars, TLC, TLCExt, Json, IOUtils, CSV
+EXTENDS SemOverflow, AsCodedOverflow, SemScaled, SemRounding, AsCodedRounding, AsCodedRConv, SemElastic, SemSqrt, SemFraction, SemWide, SemNative, SemParse, SemMath, AsCodedToChars, TLC, TLCExt, Json, IOUtils, CSV
 
 Tr == ndJsonDeserialize(IOEnv.TRACE)
 Insts == ndJsonDeserialize(IOEnv.INSTS)
@@ -85,6 +85,17 @@ AsCoded(e, i) ==
       [] e.e = "RDiv" ->
            MatchesAsCodedRound(AsCodedRoundDiv(i.tag, TV(AsIntT(i.lt), J(e.l)), TV(AsIntT(i.rt), J(e.r))), e.out, J(e.res))
       [] e.e = "ElBin" -> AsCodedElBin(e, i)
+      [] e.e = "RConv" ->
+           LET st == i.lt  dt == i.rt IN
+           IF st.k = "float" THEN
+               IF e.l.c # "fin" THEN FALSE
+               ELSE IF dt.k = "int" THEN MatchesRConv(FloatToInt(i.tag, FVal(e.l), st.p, AsIntT(dt)), e.out, J(e.res))
+               ELSE IF dt.k = "scaled" /\ dt.r = 2 /\ dt.rep.k = "int"
+                    THEN MatchesRConv(FloatToScaled(i.tag, FVal(e.l), st.p, AsIntT(dt.rep), dt.e), e.out, J(e.res))
+               ELSE FALSE
+           ELSE IF st.k = "scaled" /\ dt.k = "scaled" /\ st.rep.k = "int" /\ dt.rep.k = "int" /\ st.r = dt.r /\ dt.e > st.e
+                THEN MatchesRConv(ScaledToScaled(i.tag, J(e.l), AsIntT(st.rep), st.e, AsIntT(dt.rep), dt.e, st.r, AsIntT(InnerT(i.res_t))), e.out, J(e.res))
+           ELSE FALSE
       [] e.e \in {"Tc", "TcStatic"} ->
            \* scaled_integer text: the as-coded descale + layout model must predict the failing assertion / the hang
            IF i.lt.k # "scaled" THEN FALSE
